@@ -105,6 +105,16 @@ type embedded struct {
 	PP    **int
 }
 
+// slices whose members the engine cannot convert
+type oddSlices struct {
+	Name  string
+	Codes []uint16
+	Rows  [][]string
+	Kids  []*unexp
+	Mixed []interface{}
+	Gaps  []interface{}
+}
+
 func oddObjects() []interface{} {
 	n := 5
 	pn := &n
@@ -115,6 +125,9 @@ func oddObjects() []interface{} {
 		unexp{Name: "a", secret: 1}, &unexp{Name: "b"}, nilStruct, embedded{}, &embedded{Any: map[string]interface{}{"k": nil}, Extra: &unexp{}},
 		map[int]interface{}{1: "x"}, map[string]int{"N": 1}, map[string]string{"Name": "x"}, map[interface{}]interface{}{"a": 1}, nilMap,
 		map[string]interface{}{"Name": nil, "N": []interface{}{map[string]interface{}{"a": []interface{}{nil}}}, "F": func() {}, "C": make(chan int), "P": pn, "S": struct{ A int }{1}},
+		oddSlices{Name: "o", Codes: []uint16{1, 2}, Rows: [][]string{{"a"}, {"b", "c"}}, Kids: []*unexp{{Name: "k"}, nil}, Mixed: []interface{}{nil, 1, struct{}{}, []interface{}{1}, map[string]interface{}{"a": 1}}, Gaps: []interface{}{nil}},
+		&oddSlices{Codes: []uint16{}, Mixed: []interface{}{func() {}, make(chan int)}},
+		map[string]interface{}{"Codes": []uint16{7}, "Rows": [][]string{{"a"}}, "Mixed": []interface{}{nil, []interface{}{nil}}, "Gaps": []interface{}{nil, nil}, "N": []interface{}{nil}},
 		struct{}{}, [3]int{1, 2, 3}, complex(1, 2), uint8(7), time.Now(), &time.Time{}, struct{ T time.Time }{time.Unix(0, 0)},
 	}
 }
@@ -122,6 +135,8 @@ func oddObjects() []interface{} {
 var oddScripts = []string{
 	`return Name;`, `return N;`, `return type(Name) + type(N) + type(Extra);`, `return len(N);`, `foreach k, v in N { t(k); } return M;`,
 	`return Name + secret;`, `return [Name, N, F, C, P, S, Any, UP, Arr, M, MS, PP, T];`, `x = N; x++; return x;`, `return N[0]["a"][0];`, `return !C && !P;`,
+	`return Codes[0];`, `return Rows[0];`, `return Kids[1];`, `return Mixed[0];`, `return Gaps[0];`, `return N[0];`, `return [Codes, Rows, Kids, Mixed, Gaps];`, `return Mixed;`,
+	`foreach row in Rows { return row; } return 0;`, `foreach m in Mixed { t(m); } return len(Mixed) + len(Codes) + len(Gaps);`, `return Gaps[0] == Mixed[0];`, `return string(Mixed) + string(Rows);`,
 }
 
 var faultScripts = []string{
@@ -201,7 +216,7 @@ func c08Worker(kind string, n int) int {
 
 func checkC08(c *Check) {
 	c.Level = "exploration"
-	c.rule = "MC_Hostile generates script texts as sequences of 82 lexemes (every token kind, brackets, quotes, backslash, NUL, multi-byte characters, keywords, literal fragments): every sequence of length 1-2 (thorough: 3) exhaustively by TLC, longer ones (to 14; thorough 40) in TLC's simulation mode (every candidate successor of every simulated step), each joined with and without spaces; plus every invalid text of MC_Reject; each text goes through Prepare and, if accepted, Execute and Run twice on two objects (a deadline of 60 ms set before Prepare): no call may panic into the harness, Execute may not return (nil, nil), no scope may stay open; 10 field-reading scripts x 29 odd objects (nil, non-struct values, structs with unexported / embedded / func / chan / unsafe / pointer-to-pointer fields, typed nil pointers, maps with non-string keys or non-interface values, deeply nested documents holding nils) through Execute and Run, followed by a run on a good object; 55 run-time fault scripts; size stress (quick: 9, thorough: 16 nesting / length shapes at 10^2..3*10^6, recursion depth to 10^6) each in its own worker process whose survival is the observation; distinct = distinct script text (x object)"
+	c.rule = "MC_Hostile generates script texts as sequences of 82 lexemes (every token kind, brackets, quotes, backslash, NUL, multi-byte characters, keywords, literal fragments): every sequence of length 1-2 (thorough: 3) exhaustively by TLC, longer ones (to 14; thorough 40) in TLC's simulation mode (every candidate successor of every simulated step), each joined with and without spaces; plus every invalid text of MC_Reject; each text goes through Prepare and, if accepted, Execute and Run twice on two objects (a deadline of 60 ms set before Prepare): no call may panic into the harness, Execute may not return (nil, nil), no scope may stay open; 22 field-reading scripts x 32 odd objects (nil, non-struct values, slices whose members the engine cannot convert - []uint16, [][]string, []*T with a nil, []interface{} holding nil / struct / func / chan - read whole, by index and by foreach, structs with unexported / embedded / func / chan / unsafe / pointer-to-pointer fields, typed nil pointers, maps with non-string keys or non-interface values, deeply nested documents holding nils) through Execute and Run, followed by a run on a good object; 55 run-time fault scripts; size stress (quick: 9, thorough: 16 nesting / length shapes at 10^2..3*10^6, recursion depth to 10^6) each in its own worker process whose survival is the observation; distinct = distinct script text (x object)"
 	c.assumptions = []string{"scripts whose single operation needs more memory than the host has are excluded; the memory-growing loops run under a 60 ms deadline", "Dump on an evaluator whose Prepare failed is host misuse and not exercised"}
 	maxLen := 2
 	simNum, simDepth := 30, 14
